@@ -559,6 +559,12 @@ func (c16) Check(c *core.Case, env *core.Env, res zzsim.Result, v *core.Verdict)
 				bad("wrong-reply", "%s: %s returned %q", name, h, h.Out)
 			}
 		}
+		for _, h := range hs {
+			if h.Kind == "subscribe" && strings.HasPrefix(h.Arg, fmt.Sprintf("slot%d ", o.slot)) && !h.OK &&
+				(o.removeCall == 0 || h.Ret < o.removeCall) && !strings.Contains(h.Err, "consumer blocked") {
+				bad("live-object-refused", "%s is live but a subscription to it failed: %s", name, h)
+			}
+		}
 		if len(o.removeRets) > 0 {
 			env.Probe("objects-removed")
 		}
